@@ -516,7 +516,7 @@ pub fn run(cfg: &Config) -> i32 {
                 let b3: String = set.iter().map(|t| format!("{{{t}:{}}}", super::c10::b3_value(t, k))).collect();
                 let b5: String = super::c10::B5_TAGS.iter().filter(|_| k % 3 != 0).take(1 + k % 8).map(|t| format!("{{{t}:{}}}", super::c10::b5_value(t, k))).collect();
                 let b2 = match variant {
-                    0 => super::c10::block2_input(mt, k, [17, 18, 21][k % 3]),
+                    0 => super::c10::block2_input(mt, k, [17, 18, 21][(k / 3) % 3]),
                     1 => super::c10::block2_output(mt, k, 46),
                     _ => super::c10::block2_output(mt, k, 47),
                 };
